@@ -294,11 +294,15 @@ fn judge_c15(c: &Case, rec: &RunRecord) -> (Vec<(String, Value)>, String) {
     let outs: Vec<_> = rec.outputs.iter().filter(|o| o.comp == 0 && o.party == p).collect();
     if c.out_masks[0][p] {
         // a destination exists only once the party has a policy, i.e. its schedule was submitted before the cancel
-        let scheduled_before = rec.schedule.iter().any(|s| s.party == p && s.t_call < cancel.t_call);
+        // (a schedule answered StateMachineStopped reached the actor after the cancel: the party never had a policy)
+        let scheduled_before = rec.schedule.iter().any(|s| s.party == p && s.t_call < cancel.t_call && s.result.as_deref() != Some("Err:StateMachineStopped"));
         if outs.len() > 1 {
             out.push((format!("the output destination was notified {} times around a cancel", outs.len()), json!({"party": p, "outputs": outs.iter().map(|o| format!("{:?}", o.result)).collect::<Vec<_>>()})));
         } else if outs.len() == 1 {
             let o = outs[0];
+            if o.t <= t_c && o.t_done > t_c {
+                out.push(("cancel() returned Ok while the notification of the output destination was still in flight".to_string(), json!({"party": p, "t_cancel_return": t_c, "t_output_start": o.t, "t_output_done": o.t_done})));
+            }
             if o.t > t_c {
                 out.push(("something was sent to the output destination after cancel() had returned Ok".to_string(), json!({"party": p, "t_cancel_return": t_c, "t_output": o.t, "output": format!("{:?}", o.result)})));
             }
